@@ -170,6 +170,9 @@ type Run struct {
 	InfraErr        error // harness/infrastructure trouble (exit 2), never a violation
 	LastExport      json.RawMessage
 	ExportValidate  bool // run ModuleBasics.ValidateGenesis on every export (C12)
+	// Hook lets a check act inside a block on the deliver state (e.g. rewrite stores into an older layout);
+	// it is part of the block's content and is therefore re-run when a crashed block is re-executed.
+	Hook func(r *Run, stage string)
 
 	currentBlockTxBytes []deliveredTx
 }
@@ -311,6 +314,9 @@ func (r *Run) ExecBlock(b *Block, src Source) {
 	for _, m := range r.Monitors {
 		m.AfterBegin(r, bresp)
 	}
+	if r.Hook != nil {
+		r.Hook(r, "after-begin")
+	}
 	i := 0
 	for {
 		if r.StopOnViolation && r.Failed() {
@@ -446,6 +452,9 @@ func (r *Run) crashAndRecover(b *Block) {
 	}
 	if _, pi := nc.BeginBlock(hdr.Time); pi != nil {
 		return
+	}
+	if r.Hook != nil {
+		r.Hook(r, "after-begin")
 	}
 	for _, bz := range txs {
 		if bz.sig != nil {
